@@ -53,6 +53,12 @@ func wsText(f, v string) string {
 			return "require(\"f1\")\n"
 		}
 		return "require(\"sub.f3\")\n"
+	case "dof2":
+		// the file is named with its suffix: resolved by looking at the disk, not by the module table
+		if f == "f2" {
+			return "dofile(\"f1.lua\")\n"
+		}
+		return "dofile(\"f2.lua\")\n"
 	}
 	return ""
 }
@@ -233,7 +239,7 @@ func wsBuild(id int, raw json.RawMessage) *Job {
 func checkC08(c *Ctx) {
 	c.Rep.Rule = "TLC generates event histories of LspWorkspace.tla (exhaustive short histories from hand-picked and from all initial disks, simulated long walks); each is replayed on the real server in a real directory; the client's folded publishDiagnostics view after every event, the view of a fresh real server on the same disk and the buffer's syntax diagnostics are logged, and LspWorkspaceTrace.tla replays the log through the same actions and evaluates the Fresh and Dirty obligations at every step; distinct = distinct histories"
 	c.Rep.Assumptions = []string{
-		"content variants are rendered by a fixed table (clean, syntax error, unused local, defines/uses a shared global, requires f2 / sub.f3)",
+		"content variants are rendered by a fixed table (clean, syntax error, unused local, defines/uses a shared global, requires f2 / sub.f3, dofile of f2.lua)",
 		"external Modify/Delete only happen to files that are not open in the editor; Edit sends the full new text",
 		"the Dirty obligation is asserted only while no disk event happened since the buffer became dirty (otherwise 'last saved' is ambiguous: UNSPECIFIED)",
 		"fresh-server oracle is memoised per disk state; the answers to a fixed bundle of queries (hover, definition, references at three columns of line 0 of every file, every outline, two workspace symbol searches; compared as order-insensitive digests) are compared after the last event of every history",
@@ -263,7 +269,7 @@ func checkC08(c *Ctx) {
 		runs = append(runs, j)
 	}
 	cfg := func(mode string, maxHist int, invs string) string {
-		return fmt.Sprintf("CONSTANTS\n  Files = {\"f1\",\"f2\",\"f3\"}\n  Variants = {\"clean\",\"syn\",\"warn\",\"defg\",\"useg\",\"req2\",\"req3\"}\n  MaxHist = %d\n  InitMode = %q\nINIT Init\nNEXT Next\nINVARIANTS %s\nCHECK_DEADLOCK FALSE\n", maxHist, mode, invs)
+		return fmt.Sprintf("CONSTANTS\n  Files = {\"f1\",\"f2\",\"f3\"}\n  Variants = {\"clean\",\"syn\",\"warn\",\"defg\",\"useg\",\"req2\",\"req3\",\"dof2\"}\n  MaxHist = %d\n  InitMode = %q\nINIT Init\nNEXT Next\nINVARIANTS %s\nCHECK_DEADLOCK FALSE\n", maxHist, mode, invs)
 	}
 	if c.Replay != "" {
 		raw, err := loadReplayCase(c.Replay)
@@ -385,7 +391,7 @@ func checkC08(c *Ctx) {
 	sidx := map[int]string{}
 	n := 0
 	for f := range wsFileName {
-		for _, v := range []string{"clean", "syn", "warn", "defg", "useg", "req2", "req3"} {
+		for _, v := range []string{"clean", "syn", "warn", "defg", "useg", "req2", "req3", "dof2"} {
 			n++
 			sidx[n] = f + "|" + v
 			scases = append(scases, []*proto.Case{{ID: n, Files: map[string]string{wsFileName[f]: wsText(f, v)}, Init: json.RawMessage(allOnLocal)}})
@@ -460,7 +466,7 @@ func checkC08(c *Ctx) {
 		}
 		st, err := c.TLC(tlc.Run{Module: "LspWorkspaceTrace", Workers: 1, Timeout: 20 * time.Minute,
 			Files: map[string][]byte{"trace.ndjson": buf.Bytes()},
-			Cfg:   "CONSTANTS\n  Files = {\"f1\",\"f2\",\"f3\"}\n  Variants = {\"clean\",\"syn\",\"warn\",\"defg\",\"useg\",\"req2\",\"req3\"}\n  MaxHist = 0\n  InitMode = \"some\"\nINIT TraceInit\nNEXT TraceNext\nINVARIANTS Report\nCHECK_DEADLOCK FALSE\n"},
+			Cfg:   "CONSTANTS\n  Files = {\"f1\",\"f2\",\"f3\"}\n  Variants = {\"clean\",\"syn\",\"warn\",\"defg\",\"useg\",\"req2\",\"req3\",\"dof2\"}\n  MaxHist = 0\n  InitMode = \"some\"\nINIT TraceInit\nNEXT TraceNext\nINVARIANTS Report\nCHECK_DEADLOCK FALSE\n"},
 			func(jr json.RawMessage) {
 				var o struct {
 					Run   int      `json:"run"`
